@@ -74,4 +74,98 @@ theorem NoFault.bind {m : M Bytes ε α} {f : α → M Bytes ε β} (hm : NoFaul
   | err => simp
   | fault g' => exact absurd h (hm s g')
 
+theorem exists_cons12 {s : Bytes} (h : 12 ≤ s.length) :
+    ∃ a b c d e f g i j k l m r, s = a :: b :: c :: d :: e :: f :: g :: i :: j :: k :: l :: m :: r := by
+  obtain ⟨a, b, c, d, e, f, s1, rfl⟩ := exists_cons6 (by omega : 6 ≤ s.length)
+  simp only [List.length_cons] at h
+  obtain ⟨g, i, j, k, l, m, s2, rfl⟩ := exists_cons6 (by omega : 6 ≤ s1.length)
+  exact ⟨a, b, c, d, e, f, g, i, j, k, l, m, s2, rfl⟩
+
+theorem readDataHeader_noFault (w : UInt16) : NoFault (readDataHeader w : M Bytes DErr DataHdr) := by
+  intro s f
+  unfold readDataHeader
+  by_cases hL : hasLength w <;> by_cases hS : hasNsNr w <;> by_cases hO : hasOffset w <;>
+    simp only [hL, hS, hO, bind_apply, len_apply, len_bytes, pure_apply, if_true, if_false, Bool.false_eq_true,
+      M.ite_apply] <;>
+    split <;> try (simp; done)
+  · obtain ⟨a, b, c, d, e, f, g, i, j, k, l, m, r, rfl⟩ := exists_cons12 (s := s) (by omega); simp
+  · obtain ⟨x, y, a, b, c, d, e, f, g, i, r, rfl⟩ := exists_cons10 (s := s) (by omega); simp
+  · obtain ⟨a, b, c, d, e, f, g, i, r, rfl⟩ := exists_cons8 (s := s) (by omega); simp
+  · obtain ⟨a, b, c, d, e, f, r, rfl⟩ := exists_cons6 (s := s) (by omega); simp
+  · obtain ⟨x, y, a, b, c, d, e, f, g, i, r, rfl⟩ := exists_cons10 (s := s) (by omega); simp
+  · obtain ⟨a, b, c, d, e, f, g, i, r, rfl⟩ := exists_cons8 (s := s) (by omega); simp
+  · obtain ⟨a, b, c, d, e, f, r, rfl⟩ := exists_cons6 (s := s) (by omega); simp
+  · obtain ⟨a, b, c, d, r, rfl⟩ := exists_cons4 (s := s) (by omega); simp
+
+theorem skipOffset_noFault (o : Option UInt16) : NoFault (skipOffset o : M Bytes DErr Unit) := by
+  intro s f
+  cases o with
+  | none => simp [skipOffset]
+  | some off =>
+    simp only [skipOffset, bind_apply, len_apply, len_bytes, M.ite_apply]
+    split
+    · simp
+    · rw [skip_ok (by omega)]; simp
+
+theorem readBytes_noFault (n : Nat) (e : ε) : NoFault (readBytes n e : M Bytes ε Bytes) := by
+  intro s f
+  unfold readBytes
+  split <;> simp
+
+theorem readBytes_pure_ne_fault (n : Nat) (e : ε) (g : Bytes → α) (s : Bytes) (f : Fault) :
+    ((readBytes n e >>= fun d => pure (g d)) : M Bytes ε α) s ≠ .fault f := by
+  cases h : Rdr.bytes s n with
+  | none => simp [readBytes, h]
+  | some p => obtain ⟨b, r⟩ := p; simp [readBytes, h]
+
+theorem readDataPayload_noFault (initial : Nat) (w : UInt16) (h : DataHdr) :
+    NoFault (readDataPayload initial w h : M Bytes DErr Msg) := by
+  intro s f
+  unfold readDataPayload
+  cases hm : h.mlen with
+  | none =>
+    simp only [bind_apply, len_apply, len_bytes, M.ite_apply, fail_apply]
+    split
+    · simp
+    · exact readBytes_pure_ne_fault _ _ _ _ _
+  | some l =>
+    simp only [bind_apply, len_apply, len_bytes, M.ite_apply, fail_apply]
+    split
+    · simp
+    · split
+      · simp
+      · exact readBytes_pure_ne_fault _ _ _ _ _
+
+theorem decodeData_noFault (w : UInt16) : NoFault (decodeData w : M Bytes DErr Msg) := by
+  unfold decodeData
+  intro s f
+  simp only [bind_apply, len_apply]
+  have h1 := readDataHeader_noFault w s
+  cases hh : (readDataHeader w : M Bytes DErr DataHdr) s with
+  | fault g => exact absurd hh (h1 g)
+  | err => simp
+  | ok h r =>
+    simp only []
+    have h2 := skipOffset_noFault h.off r
+    cases hs : (skipOffset h.off : M Bytes DErr Unit) r with
+    | fault g => exact absurd hs (h2 g)
+    | err => simp
+    | ok u r' => exact readDataPayload_noFault _ w h r' f
+
+/-- `Message::try_read_validate` on the cursor: a value or a non-empty error list, never a fault -/
+theorem decode_good (o : Opts) (s : Bytes) : Good ((decode o : M Bytes (List DErr) Msg) s) := by
+  unfold decode
+  by_cases h0 : s.length < 2
+  · simp [h0, Good]
+  obtain ⟨a, b, r, rfl⟩ := exists_cons2 (by omega : 2 ≤ s.length)
+  have h0' : ¬ (r.length + 1 + 1 < 2) := by omega
+  simp only [bind_apply, len_apply, len_bytes, List.length_cons, h0', if_false, readU16_cons, M.ite_apply]
+  split
+  · simp [Good]
+  · split
+    · simp [Good]
+    · split
+      · exact decodeControl_good _ _ _
+      · exact liftE_good (decodeData_noFault _) _
+
 end Rl2tp
